@@ -42,9 +42,9 @@ def build(repo, findings):
         f.closure(r'\.is_some_and\(\|r\|', '&BuiltinRegistration', 'b: bool', 'b == (%s)' % ' '.join(m.group(1).split()), fn_name='simple_command_execute')
     u.add(f)
     u.raw(FOOTER)
-    u.assume('external_body', 'registry / PATH lookups, error construction and PathBuf are stubs with arbitrary results; execute_via_builtin / execute_via_function / execute_via_external are stubs carrying the hook contract (proved for two of the three paths in U4m)')
+    u.assume('external_body', 'registry / PATH lookups, error construction and PathBuf are stubs with arbitrary results; execute_via_builtin / execute_via_function / execute_via_external are stubs carrying the hook contract (proved for the tails of all three paths in U4m)')
     u.assume('uninterp', 'ShellForCommand::hooks (ghost), ShellForCommand::posix')
     u.assume('assume_specification', 'Option::is_some_and (std documented behaviour)')
-    u.assume('stub', 'execute_via_external and the owned-shell branch of execute_via_builtin are NOT verified')
+    u.assume('stub', 'the owned-shell branch of execute_via_builtin is NOT verified for the hook (it has no parent shell to run it on)')
     u.expected_min_fns = 1
     return u
